@@ -29,6 +29,22 @@ mod verif_k17 {
         assert!(d[0] == child && d[1] == parent);
     }
 
+    /// COMPLETE (full domain, loop-free): the one-level location decision returns a quaternary digit and does not
+    /// panic for EVERY pair of finite f64 coordinates (|u|, |v| <= 1e300, so that u + v is finite; CBMC flags NaN
+    /// arithmetic) and every flip state of +-1 -- the contract `ensures r < 4` that Verus unit `hilbert` assumes
+    /// for ij_to_quaternary (its f64 comparisons are outside Verus).
+    #[kani::proof]
+    fn k14_ij_to_quaternary_total() {
+        let u: f64 = kani::any();
+        let v: f64 = kani::any();
+        kani::assume(u >= -1e300 && u <= 1e300 && v >= -1e300 && v <= 1e300);
+        let fx: bool = kani::any();
+        let fy: bool = kani::any();
+        let flips: [Flip; 2] = [if fx { YES } else { NO }, if fy { YES } else { NO }];
+        let d = ij_to_quaternary(IJ::new(u, v), flips);
+        assert!(d < 4);
+    }
+
     fn nudge(a: &Anchor) -> IJ {
         let [flip_x, flip_y] = a.flips;
         if flip_x == NO && flip_y == NO {
